@@ -17,6 +17,7 @@ CONSTANTS
   KeepTasks = TRUE
   KernMode = "free"
   GenMode = FALSE
+  MaxIntr = 0
   InitBits = {0}
 INVARIANTS NoViolation NumObjsOK ActiveRegistered HandledRegistered EpollSync PollArrayOK ExpiredOK TasksOK EventsOK TimerFdOK
 VIEW View
